@@ -194,6 +194,10 @@ type Action struct {
 	// MethodsOfFieldTypes: ask Package.MethodsOf (all, then value receivers only) about the type itself and about the
 	// named type of every field, and render the method names (sorted) as comments
 	MethodsOfFieldTypes bool `json:"methods_of_field_types,omitempty"`
+	// NestedRun: from inside this callback, start ANOTHER gengo run (its own NewContext + Execute with one recording
+	// generator that is not one of the scripted ones) over these entrypoints, e.g. "./nested/..." (a generator that
+	// drives a sub-generation); its GenerateType calls are logged as events of kind "nested"
+	NestedRun []string `json:"nested_run,omitempty"`
 	// Recovered: text rendered through a template that ends in an unbound name: the render panics after it
 	// yielded this text, and the generator recovers from the panic and carries on (a legal thing to do)
 	Recovered string `json:"render_that_panics_and_is_recovered,omitempty"`
@@ -428,6 +432,15 @@ func (in *inst) generate(gen string, c gengo.Context, named *types.Named) error 
 			for i := 0; i < st.NumFields(); i++ {
 				c.RenderT(fmt.Sprintf("var _ft%d_%s_%s @t\n", i, typ, gen), snippet.IDArg("t", st.Field(i).Type()))
 			}
+		}
+	}
+	if len(a.NestedRun) > 0 {
+		ex, err := gengo.NewContext(&gengo.GeneratorArgs{Entrypoint: a.NestedRun, OutputFileBaseName: "zz_nested", Globals: map[string][]string{"gengo:nestedrec": {"true"}}})
+		if err != nil {
+			return fmt.Errorf("nested run: %w", err)
+		}
+		if err := ex.Execute(context.Background(), &nestedRec{}); err != nil {
+			return fmt.Errorf("nested run: %w", err)
 		}
 	}
 	if a.MethodsOfFieldTypes {
@@ -888,6 +901,18 @@ func execOnce(spec Spec) (out Outcome) {
 	}()
 	<-done
 	return
+}
+
+// nestedRec: the generator of a nested run; records its calls, renders nothing.
+type nestedRec struct{}
+
+func (*nestedRec) Name() string { return "nestedrec" }
+
+func (*nestedRec) GenerateType(c gengo.Context, n *types.Named) error {
+	mu.Lock()
+	log = append(log, Event{Kind: "nested", Gen: "nestedrec", Pkg: n.Obj().Pkg().Path(), Type: n.Obj().Name()})
+	mu.Unlock()
+	return nil
 }
 
 func applyOps(dir string, ops []FileOp) {
